@@ -12,6 +12,7 @@ import (
 	"bytes"
 	"fmt"
 	"net"
+	"runtime"
 	"sort"
 	"strings"
 	"sync"
@@ -260,6 +261,7 @@ type fsResult struct {
 	switched bool
 	swHeight uint64
 	requests map[string]int
+	stacks   string // all goroutines at the moment the run was declared stable (diagnostics)
 }
 
 func fsNewSyncNode(c *fsChain) (*csim.MemApp, cs.NewStatus, *cs.BlockExecutor) {
@@ -452,6 +454,10 @@ func fsRun(c *fsChain, peers []*fsPeerSpec, quiet, deadline time.Duration) *fsRe
 		if sw_ || (set.Size() == 0 && idle > 400*time.Millisecond) || idle > quiet || time.Since(start) > deadline {
 			break
 		}
+	}
+	{
+		buf := make([]byte, 1<<20)
+		res.stacks = string(buf[:runtime.Stack(buf, true)])
 	}
 	close(done)
 	bcR.Stop()
